@@ -32,8 +32,41 @@ class D(RenderDriver):
                       "clip_child_transform": 20, "clip_rule_evenodd": 30, "src_rule_sensitive": 200, "src_clip_decides": 500}
 
     def gen_doc(self, rng):
+        if rng.random() < 0.05:
+            text, f, root = gd.use_clip_on_transformed_target_doc(rng)
+            return text, f, {"root": root}
         text, f, root = gd.clipped(rng, max_depth=rng.choice((2, 3, 3)))
-        return text, f, None
+        return text, f, {"root": root}
+
+    def classify(self, doc, out, mismatch, meta):
+        eng = self.engine_fault(doc, out)
+        if eng:
+            return eng
+        if not meta:
+            return None
+        # known mechanism: the clip of a <use> is moved onto the instantiated target and then
+        # transformed by the target's own transform.  Intervention: with those uses replaced by the
+        # group SVG's use semantics generate, the same document converts correctly.
+        import random as _random
+
+        from picomon import conv
+        from picomon.ref import render as RR
+
+        alt = gd.expand_clipped_uses_of_transformed_targets(meta["root"])
+        if alt is None:
+            return None
+        st, out2 = conv.convert(gd.to_xml(alt))
+        if st != "ok":
+            return None
+        try:
+            src, dst = RR.build(doc), RR.build(out2)
+            pts = conv.sample_points(src, _random.Random(3), eps=0.4) + [mismatch[0]]
+            r = conv.compare_stacks(src, dst, pts, 0.4)
+            if r["mismatch"] is None and r["kept"] >= 30:
+                return "use-clip-moved-onto-transformed-target"
+        except Exception:
+            return None
+        return None
 
     def is_nontrivial(self, st, feats, meta):
         return st["kept"] >= 30 and st.get("src_stats", {}).get("clip_decides", 0) >= 5
